@@ -52,6 +52,10 @@ def o_basis_o1(rng, n=8, max_N=12):
             inp = {"crystal": crystal(rng, max_N=max_N, min_nlp=2 if k % 2 else 1), "orders": [1]}
             if k % 2:
                 inp["explicit_ops"] = rng.randrange(10 ** 6)      # caller-supplied operations, reordered
+            elif rng.random() < 0.5 and len(inp["crystal"].numbers) >= 2:
+                mk = [rng.randint(0, 1) for _ in inp["crystal"].numbers]
+                if 0 < sum(mk) < len(mk):
+                    inp["marks"] = mk                             # caller-supplied operations of a subgroup
             yield inp
     return O.run_oracle("basis_o1", gen())
 
@@ -81,9 +85,13 @@ def o_completeness(rng, n=6, max_N=(4, 3, 2), with_cutoff=False, orders=(2, 3, 4
 
 
 def o_fit(name):
-    def f(rng, n=6, max_N=(6, 4, 3), combos=None, confine=False):
+    def f(rng, n=6, max_N=(6, 4, 3), combos=None, confine=False, amps=None):
         def gen():
             for inp in O.gen_fit_inputs(rng, n, max_N=max_N, combos=combos):
+                if amps:
+                    inp["amp"] = rng.choice(list(amps))
+                    yield inp
+                    continue
                 if confine and rng.random() < 0.35:
                     # under-determined data (the library may fail loudly; if it answers, the answer must be a minimiser):
                     # displacements along x only, or fewer equations than unknowns; also at small amplitudes, where
@@ -93,6 +101,10 @@ def o_fit(name):
                     else:
                         inp["n_snap"] = rng.choice([1, 2, 3])
                     inp["amp"] = rng.choice([0.05, 0.01, 0.003])
+                elif confine and rng.random() < 0.2:
+                    # well-determined data at very small amplitudes (the high-order columns of a joint fit are then
+                    # orders of magnitude weaker than the low-order ones; the answer must still be a minimiser)
+                    inp["amp"] = rng.choice([1e-4, 3e-5])
                 elif rng.random() < 0.45:
                     inp["freeze_atom"] = rng.randrange(64)
                     inp["n_snap"] = int(inp["n_snap"]) * 3          # still (usually) determined
@@ -145,7 +157,27 @@ def o_paths(rng, n=3, max_N=(6, 4, 3)):
 def o_sg(rng, n=8, max_N=12):
     def gen():
         for k in range(n):
-            yield {"crystal": crystal(rng, max_N=max_N, min_nlp=rng.choice([1, 2])), "subgroup": k % 4 == 3,
+            cr_ = crystal(rng, max_N=max_N, min_nlp=rng.choice([1, 2]))
+            if rng.random() < 0.4:
+                if rng.random() < 0.6:
+                    for _ in range(40):     # a supercell whose lattice vectors are mutually orthogonal
+                        cr_ = crystal(rng, max_N=max_N, protos=["sc", "cscl", "tetragonal2", "ortho_inv"], allow_random=False)
+                        g_ = cr_.lattice @ cr_.lattice.T
+                        if np.allclose(g_, np.diag(np.diag(g_))):
+                            break
+                # the same crystal with its lattice vectors re-listed / re-signed and turned by quarter turns
+                from .gen import Crystal as _C
+                def sp_():
+                    M = np.zeros((3, 3))
+                    pp = [0, 1, 2]
+                    rng.shuffle(pp)
+                    for r_, c_ in enumerate(pp):
+                        M[r_, c_] = rng.choice([-1.0, 1.0])
+                    return M
+                U_, Q_ = sp_(), sp_()
+                cr_ = _C(cr_.name, U_ @ cr_.lattice @ Q_.T, cr_.positions @ np.linalg.inv(U_), cr_.numbers,
+                         cr_.n_lp_expected, dict(cr_.meta, reoriented=True))
+            yield {"crystal": cr_, "subgroup": k % 4 == 3,
                    "op_order": rng.choice(["spglib", "shuffled", "identity_first_shuffled", "by_rotation"]),
                    "seed": rng.randrange(10 ** 6)}
     return O.run_oracle("sg_perms", gen())
@@ -419,6 +451,11 @@ PROPS = {
         "corr": [{"fn": S.corr_reshape, "quick": {"n_cases": 36}, "thorough": {"n_cases": 300}},
                  {"fn": S.corr_normal_eq, "quick": {"n_cases": 36}, "thorough": {"n_cases": 240}}],
         "oracle": [{"name": "recovery", "fn": o_fit("recovery"), "quick": {"n": 12}, "thorough": {"n": 48}, "search": {"n": 36}},
+                   # order 4 alone on four-atom supercells (two lattice points, images of one primitive atom not contiguous
+                   # in the atom list): ~2 s a case
+                   {"name": "recovery_order4_four_atoms", "fn": o_fit("recovery"),
+                    "quick": {"n": 2, "combos": [(4,)], "max_N": (6, 4, 4)}, "thorough": {"n": 8, "combos": [(4,), (3, 4)], "max_N": (6, 4, 4)},
+                    "search": {"n": 8, "combos": [(4,), (4,), (3, 4)], "max_N": (6, 4, 4)}},
                    {"name": "solver_object_reuse", "fn": o_solver_reuse, "quick": {"n": 6}, "thorough": {"n": 36}, "search": {"n": 18}}],
         "known": known_F1,
         "corpus": [{"name": "corpus_F1_reference_fc4_not_recovered", "fn": corpus_F1_recovery}],
@@ -428,7 +465,13 @@ PROPS = {
         "lean": "SymfcModel.Props.C06", "gen": ["Solver", "ApiDataflow"],
         "corr": [{"fn": S.corr_normal_eq, "quick": {"n_cases": 36}, "thorough": {"n_cases": 240}}],
         "oracle": [{"name": "normal_equations", "fn": o_fit("normal_equations"), "quick": {"n": 12, "confine": True},
-                    "thorough": {"n": 36, "confine": True}, "search": {"n": 30, "confine": True}}],
+                    "thorough": {"n": 36, "confine": True}, "search": {"n": 30, "confine": True}},
+                   # joint fits at very small displacement amplitudes: the high-order columns are orders of magnitude
+                   # weaker than the low-order ones; the answer must still be a minimiser (measured per order)
+                   {"name": "normal_equations_small_amplitude", "fn": o_fit("normal_equations"),
+                    "quick": {"n": 3, "combos": [(3, 4), (2, 3), (2, 3, 4)], "amps": (1e-4, 3e-5)},
+                    "thorough": {"n": 12, "combos": [(3, 4), (2, 3), (2, 3, 4)], "amps": (1e-4, 3e-5, 1e-3)},
+                    "search": {"n": 9, "combos": [(3, 4), (2, 3), (2, 3, 4)], "amps": (1e-4, 3e-5)}}],
         "trusted": [KERNELS["posv"], KERNELS["float"]],
     },
     "C07": {
